@@ -1,5 +1,70 @@
 # C05 -- slicing follows Python/NumPy basic-indexing semantics
-META = dict(level='proof', level_text='wip', level_note='wip', trusted_base=[], assumptions=[], not_covered=[])
+#
+# Entry wrappers (inst/c05.cpp) call the real variadic index::shape_slice / index::slice with compile-time slice kinds:
+#   verif_shape_slice_XYZ / verif_slice_XYZ     1-d a[start:stop:step], XYZ in {i,n}^3 (i = int part, n = None part): all 8 encodings
+#   verif_*_2d_int_ii                           a[i, start:stop]         (integer drops its axis; 2-tuple slice encoding)
+#   verif_*_ell                                 a[i, ::step, ..., j]     rank 3..8 symbolic; Ellipsis loop closed by a loop contract
+# Spec (spec/c05.h) = port of CPython's slice.indices(); postconditions: kept axis extent == Python's length; element k of the kept
+# axis is source element start' + k*step.  Genuine deviations of nmtools from Python are recorded per wrapper as input regions in
+# known_findings.json (36 regions); the contracts are PROVED on the complement of those regions.
+META = dict(
+    level='proof',
+    level_text='Every wrapper contract (shape_slice: kept-axis extent == CPython slice.indices length, integers drop their axis, Ellipsis '
+               'keeps its axes; slice: source index == start\' + k*step) is discharged by CBMC (dfcc, bit-precise incl. the float '
+               'ceil(range/step) kernel) for ALL int start/stop, all extents 1..2^31-1 and symbolic rank 3..8 for the Ellipsis case, on the '
+               'complement of the 36 recorded known-finding regions. Index contracts hold for every int step != 0 (the library\'s own '
+               'k*step product is uninterpreted in UF mode); length contracts with an integer step are proved for 1 <= |step| <= 3 '
+               '(the property\'s quantifier; float-vs-integer division equivalence is SAT-infeasible for wide divisors). start\'+k*step '
+               'in [0,n) is a Lean lemma about the spec; checked directly by CBMC where step is None. The two Ellipsis loops are closed '
+               'by loop contracts; no code loop is unwound.',
+    level_note='Large parts of the input space are excluded as genuine defects (negative steps, crossed/out-of-range bounds, negative start with '
+               'stop None, ranges > 2^24): see known_findings.json. What is proved is the remaining Python-conforming core. Length with |step| > 3 '
+               'is not covered. Trusted: clang AST, cxx2c rendering, CBMC/CaDiCaL, Lean core, textual C<->Lean correspondence of py_slice_adjust.',
+    trusted_base=[
+        'clang 14 front end (AST of the instantiated templates)', 'engine/cxx2c.py (C++ AST -> C rendering; std::tuple modelled as struct {e0,e1,e2})',
+        'cbmc 6.11.0 / goto-instrument --dfcc (contract instrumentation; SAT back ends minisat2 and CaDiCaL; IEEE-754 float model)',
+        'spec/c05.h py_slice_adjust as a faithful port of CPython PySlice_Unpack/PySlice_AdjustIndices/PySlice_AdjustIndices length rule '
+        '(cross-checked natively against the 36 finding witnesses and a brute-force sweep during development)',
+        'Lean 4 core (lemmas/c05_slice_in_range.lean) and the line-by-line correspondence between pyAdjust/pyLen there and py_slice_adjust',
+    ],
+    assumptions=[
+        'extents 1 <= n <= 2^31-1 (the library converts the extent to int); rank-1 shapes for the 8 encodings, rank 2 / rank 3..8 for the mixed cases',
+        'length (shape_slice) contracts with an integer step: 1 <= |step| <= 3 (C05_STEP_MAX); index (slice) contracts: any int step != 0',
+        'integer index i on an axis of extent n: -n <= i < n (Python raises IndexError otherwise); destination index k < Python length',
+        'signed<->unsigned integer conversions are modular (C++17 [conv.integral]: defined for unsigned targets, implementation-defined = modular on '
+        'gcc/clang for signed targets, mandated by C++20); CBMC --conversion-check reports on them are waived (listed under waived_checks); '
+        'the float->int conversion check stays active',
+        'UF mode (slice.* units with an int step): unsigned long * is an uninterpreted function constrained by the axioms in models/prelude.h; '
+        'the spec uses the same product term, so the proof holds for the machine multiplication',
+        'ghost cells C05_L0/C05_R0/C05_R1 are functional definitions assumed in the precondition (values stored before the Ellipsis loop)',
+        'configuration: -DNDEBUG, STL enabled, shapes/indices utl::static_vector<size_t,8>, slice parts int / none_t / ellipsis_t / int index',
+        'inputs inside the known-finding regions are excluded (requires !(region)); each region is re-confirmed natively on every run',
+    ],
+    not_covered=[
+        'run-time slice lists (shape_dynamic_slice / dynamic_slice over nmtools_list<either<...>> or array<int,3>) and the agreement packed vs dynamic',
+        'view::slice / view::apply_slice / mutable_slice glue (only the index functions are under contract)',
+        'length for |step| > 3 (incl. the UB of -step for step == INT_MIN)',
+        'unsigned / size_t / compile-time-constant (ct<>) slice parts; fixed (std::array) and tuple shapes',
+        'multi-axis combinations beyond a[i, a:b] and a[i, ::s, ..., j] (per-axis kernels are shared, bookkeeping proved for these two)',
+        'everything inside the recorded known-finding regions',
+    ],
+)
 V = ['iii', 'iin', 'ini', 'inn', 'nii', 'nin', 'nni', 'nnn']
-UNITS = [Unit('shape_slice.%s' % v, 'c05', 'verif_shape_slice_%s' % v, mode='bp', clause='shape') for v in V] + \
-        [Unit('slice.%s' % v, 'c05', 'verif_slice_%s' % v, mode='bp', clause='index') for v in V]
+# --conversion-check also flags signed<->unsigned integer conversions of out-of-range values. Those are not undefined behaviour in C++17
+# (to-unsigned is modular [conv.integral]/2; to-signed is implementation-defined, modular on gcc/clang and since C++20) and the library
+# relies on them deliberately (negative steps/starts are carried in unsigned index types). CBMC models them as modular, like the compilers.
+# The float->int conversion check (real UB) stays active.
+WAIVE = [r'arithmetic overflow on (signed to unsigned|unsigned to signed) type conversion']
+CADICAL = ['--sat-solver', 'cadical']   # float division vs integer ceil-division: minisat2 needs > 300 s on shape_slice.iii, CaDiCaL ~40 s
+SHAPE = 'the sliced view has exactly the shape slice.indices gives (per kept axis)'
+INDEX = 'element k along a kept axis is source element start\' + k*step'
+UNITS = [Unit('shape_slice.%s' % v, 'c05', 'verif_shape_slice_%s' % v, mode='bp', extra=CADICAL, waive=WAIVE, timeout=600, clause=SHAPE) for v in V] + \
+        [Unit('slice.%s' % v, 'c05', 'verif_slice_%s' % v, mode='uf' if v[2] == 'i' else 'bp', waive=WAIVE, clause=INDEX) for v in V] + [
+    Unit('shape_slice.2d_int_ii', 'c05', 'verif_shape_slice_2d_int_ii', mode='bp', unwind=10, extra=CADICAL, waive=WAIVE,
+         clause=SHAPE + '; integers drop their axis'),
+    Unit('slice.2d_int_ii', 'c05', 'verif_slice_2d_int_ii', mode='bp', unwind=10, waive=WAIVE, clause=INDEX + '; integer index counted from the end'),
+    Unit('shape_slice.ell', 'c05', 'verif_shape_slice_ell', mode='bp', unwind=10, extra=CADICAL, waive=WAIVE,
+         clause=SHAPE + '; integers drop their axis; one ellipsis expands to the remaining axes'),
+    Unit('slice.ell', 'c05', 'verif_slice_ell', mode='uf', unwind=10, waive=WAIVE, clause=INDEX + '; ellipsis axes map identically'),
+]
+LEMMAS = [Lemma('slice_in_range', 'c05_slice_in_range.lean', clause='0 <= start\' + k*step < n for every k < Python length (no wrap-around)')]
